@@ -6,6 +6,114 @@
 pub mod coll {
     pub const CAP: usize = 4;
 
+    /// array-backed stand-in for std::vec::Vec (capacity VCAP, no heap): the unit only pushes, pops,
+    /// searches and iterates small vectors
+    pub const VCAP: usize = 4;
+    #[derive(Clone, Debug)]
+    pub struct Vec<T> {
+        pub items: [Option<T>; VCAP],
+        pub n: usize,
+    }
+    impl<T> Vec<T> {
+        pub fn new() -> Self {
+            Vec { items: [const { None }; VCAP], n: 0 }
+        }
+        pub fn len(&self) -> usize {
+            self.n
+        }
+        pub fn push(&mut self, t: T) {
+            assert!(self.n < VCAP, "shim: vec full");
+            self.items[self.n] = Some(t);
+            self.n += 1;
+        }
+        pub fn pop(&mut self) -> Option<T> {
+            if self.n == 0 {
+                None
+            } else {
+                self.n -= 1;
+                self.items[self.n].take()
+            }
+        }
+    }
+    impl<T: PartialEq> Vec<T> {
+        pub fn contains(&self, t: &T) -> bool {
+            let mut i = 0;
+            while i < VCAP {
+                if i < self.n {
+                    if let Some(x) = &self.items[i] {
+                        if *x == *t {
+                            return true;
+                        }
+                    }
+                }
+                i += 1;
+            }
+            false
+        }
+    }
+    impl<T> core::ops::Index<usize> for Vec<T> {
+        type Output = T;
+        fn index(&self, i: usize) -> &T {
+            assert!(i < self.n, "shim: vec index out of bounds");
+            self.items[i].as_ref().unwrap()
+        }
+    }
+    pub struct VecIntoIter<T> {
+        v: Vec<T>,
+        i: usize,
+    }
+    impl<T> Iterator for VecIntoIter<T> {
+        type Item = T;
+        fn next(&mut self) -> Option<T> {
+            if self.i < self.v.n {
+                let r = self.v.items[self.i].take();
+                self.i += 1;
+                r
+            } else {
+                None
+            }
+        }
+    }
+    impl<T> IntoIterator for Vec<T> {
+        type Item = T;
+        type IntoIter = VecIntoIter<T>;
+        fn into_iter(self) -> VecIntoIter<T> {
+            VecIntoIter { v: self, i: 0 }
+        }
+    }
+    pub struct VecIter<'a, T> {
+        v: &'a Vec<T>,
+        i: usize,
+    }
+    impl<'a, T> Iterator for VecIter<'a, T> {
+        type Item = &'a T;
+        fn next(&mut self) -> Option<&'a T> {
+            if self.i < self.v.n {
+                let r = self.v.items[self.i].as_ref();
+                self.i += 1;
+                r
+            } else {
+                None
+            }
+        }
+    }
+    impl<'a, T> IntoIterator for &'a Vec<T> {
+        type Item = &'a T;
+        type IntoIter = VecIter<'a, T>;
+        fn into_iter(self) -> VecIter<'a, T> {
+            VecIter { v: self, i: 0 }
+        }
+    }
+    impl<T> core::iter::FromIterator<T> for Vec<T> {
+        fn from_iter<I: IntoIterator<Item = T>>(it: I) -> Self {
+            let mut v = Vec::new();
+            for x in it {
+                v.push(x);
+            }
+            v
+        }
+    }
+
     #[derive(Clone, Debug)]
     pub struct BTreeSet<K> {
         pub items: [Option<K>; CAP],
@@ -260,7 +368,7 @@ pub mod typechecker {
     }
 
     pub mod value_cycle {
-        use crate::coll::{BTreeMap, BTreeSet};
+        use crate::coll::{BTreeMap, BTreeSet, Vec};
         use crate::typechecker::scope::ValueKind;
         use crate::typechecker::{TypeChecker, TypeResult};
         use std::hash::Hash;
